@@ -59,6 +59,11 @@ PROPS = {
     trusted_base=[A['A6'], A['A7'], A['A9']],
     assumptions=[A['A6'], A['A7'], A['A9']],
     explanation='(under construction) conversion contracts'),
+ 'C05': dict(
+    tasks=T('mirvc:specs_loops', 'mirvc:specs_lib', 'mirvc:specs_groups', 'gsearch:all', 'lsearch:all'),
+    trusted_base=[A['A3'], A['A4'], A['A7'], A['A9'], 'hand-over: U256::from(Fr) = canonical value; bits_without_leading_zeros yields the binary digits (limb-level obligations)'],
+    assumptions=[A['A3'], A['A4'], A['A6'], A['A7']],
+    explanation='double-and-add loop of Mul<Fr> for G<P> verified with the inductive invariant pt(res) = [prefix] pt(self) over the abstract group; wrappers k*P / P*k are delegation obligations; double/+= meet the group law (C04 obligations)'),
 }
 
 HOOK_COMMITS = ['8aeb3f0']
